@@ -109,7 +109,7 @@ def enc_otxt(t):
 
 def short(b):
     """texts are opaque to the model: long ones are replaced by their digest (in operations and in snapshots alike)"""
-    return b if len(b) <= 200 else b"<long:" + hashlib.sha1(b).hexdigest().encode() + b":" + str(len(b)).encode() + b">"
+    return b if len(b) <= 100000 else b"<long:" + hashlib.sha1(b).hexdigest().encode() + b":" + str(len(b)).encode() + b">"
 
 
 def tobytes(o):
@@ -230,6 +230,20 @@ BODIES = [b"0", b'""', b"null", b"false", b"[]", b"{}", b"0.0", b'"\xed\xa0\x80"
 CLENS = ["=", "=", "=", None, "x", "0", "3", "-1", " 5 ", "1_0", "99"]
 
 
+def _nest(depth, leaf, as_dict=False):
+    v = leaf
+    for _ in range(depth):
+        v = {"d": v} if as_dict else [v]
+    return v
+
+
+# legal values at and beyond natural limits (lengths 255/256/4096, nesting 16/17/64, control characters)
+LIMIT_VALUES = ["v" * 255, "v" * 256, "v" * 4096, _nest(16, 0), _nest(17, 0), _nest(64, None), _nest(17, "", True),
+                _nest(64, [], True), "\x01\x1f\x7f", "\t\n\r", 2 ** 1000, -(2 ** 1000), 1e-310, 1.7976931348623157e308,
+                list(range(300)), {str(i): i for i in range(200)}]
+LIMIT_IDS = ["s" * 255, "s" * 256, "s" * 4096, "\x01\x7f", " ", "\t", "a\nb"]
+
+
 def handler_pool():
     return [
         {"path": "/upd", "action": "set_value", "key": "flag", "value": True, "cal": None},
@@ -336,6 +350,10 @@ class C15(Check):
             case["_vals"] = rng.sample(VALUES, 4) + ([1, 1.0, True] if rng.random() < 0.3 else [])
             case["_sys"] = rng.sample(SYS, 3)
             case["_keys"] = rng.sample(KEYS, 2) + ["k", "flag"]
+            if rng.random() < 0.08:
+                case["_vals"] += rng.sample(LIMIT_VALUES, 2)
+                case["_sys"] += rng.sample(LIMIT_IDS, 1)
+                case["_keys"] += rng.sample(LIMIT_IDS, 1)
             steps = []
             for _ in range(rng.randrange(1, 9)):
                 steps.append(self.rand_step(rng, case, 0.65 if len(steps) < 3 else 0.4))
